@@ -48,13 +48,49 @@ def run(ctx, anchors=None):
     ctx.floor("R12.1", len(pushes), 3, "scripts appended to the listing")
     if len(heads) != len(pushes):
         ctx.fail("R12.1", "headers-parallel", main.loc(), "script_ptrs gets %d entries but script_headers %d" % (len(pushes), len(heads)))
+    # contributions to `count`: (kind, what, guards, node): ("ops", script) for one per decoded operation of a script - a GetOp loop
+    # incrementing count, or `count += ... f(script) ...` where f is an operation counter (a same-file function that returns
+    # the number of iterations of a GetOp loop over its parameter) -, ("const", k) for k lines, ("size", v) for v.size() lines
+    def op_counter(fn):
+        if fn.body is None or len(fn.params) != 1:
+            return False
+        lw = [n for n in fn.nodes() if n["k"] == "while" and n["cond"].get("k") == "mcall" and n["cond"].get("n") == "GetOp" and obj_txt(n["cond"].get("obj")) == fn.params[0]["n"]]
+        if len(lw) != 1:
+            return False
+        incs = [x for x in walk(lw[0]["body"]) if x["k"] == "un" and x["op"] == "++" and x["e"].get("k") == "ref" and x["e"].get("dk") == "local"]
+        rets = [x for x in fn.nodes() if x["k"] == "return" and x.get("e") is not None]
+        return len(incs) == 1 and len(rets) == 1 and any(y["k"] == "ref" and y.get("d") == incs[0]["e"].get("d") for y in walk(rets[0]["e"])) and \
+            sum(1 for x in fn.nodes() if x["k"] in ("assign", "cassign") or (x["k"] == "un" and x["op"] in ("++", "--"))) == 1
+
+    def summands(e):
+        while e is not None and e.get("k") == "cast":
+            e = e["e"]
+        if e is not None and e.get("k") == "bin" and e["op"] == "+":
+            return summands(e["lhs"]) + summands(e["rhs"])
+        return [e]
+    contrib = []
     loops = []
     for n in main.nodes():
         if n["k"] == "while" and n["cond"].get("k") == "mcall" and n["cond"].get("n") == "GetOp":
             incs = [x for x in walk(n["body"]) if x["k"] == "un" and x["op"] == "++" and astq.estr(x["e"]) == "count"]
             if incs:
                 loops.append((obj_txt(n["cond"].get("obj")), n, guards_txt(main, n)))
-    count_incs = [n for n in main.nodes() if n["k"] == "un" and n["op"] == "++" and astq.estr(n["e"]) == "count" and not any(a.get("k") == "while" for a in main.ancestors(n))]
+                contrib.append(("ops", obj_txt(n["cond"].get("obj")), guards_txt(main, n), n))
+        elif n["k"] == "un" and n["op"] == "++" and astq.estr(n["e"]) == "count" and not any(a.get("k") == "while" for a in main.ancestors(n)):
+            contrib.append(("const", 1, guards_txt(main, n), n))
+        elif n["k"] == "cassign" and n["op"] == "+=" and astq.estr(n["lhs"]) == "count":
+            for t in summands(n["rhs"]):
+                cv = astq.const_value(t)
+                if cv is not None:
+                    contrib.append(("const", cv, guards_txt(main, n), n))
+                elif t is not None and t.get("k") == "call" and t.get("cid") and len(t["args"]) == 1 and any(op_counter(g_) for g_ in prog.resolve(t["cid"])):
+                    contrib.append(("ops", obj_txt(t["args"][0]), guards_txt(main, n), n))
+                    loops.append((obj_txt(t["args"][0]), n, guards_txt(main, n)))
+                elif t is not None and t.get("k") == "mcall" and t.get("n") == "size":
+                    contrib.append(("size", obj_txt(t.get("obj")), guards_txt(main, n), n))
+                else:
+                    contrib.append(("other", astq.estr(t), guards_txt(main, n), n))
+    count_incs = [c for c in contrib if c[0] == "const"]
     for i, p in enumerate(pushes):
         ctx.site()
         obj = obj_txt(p["args"][0])
@@ -70,15 +106,18 @@ def run(ctx, anchors=None):
                  "%s is appended to the listing but its operations are %s: the line array is too small / the marker runs past the listing"
                  % (obj, "not counted" if not lp else "counted under a different condition (%s vs %s)" % (lp[0][2], g)))
         if lit:
-            hc = [c for c in count_incs if guards_txt(main, c) == g]
-            ctx.inst(len(hc) == 1, "R12.1", "header-counted:" + key, main.loc(p), "the header line \"%s\" is counted once under the same guard" % lit,
-                     "the header line \"%s\" is counted %d time(s) under its guard (expected once)" % (lit, len(hc)))
+            hc = sum(c[1] for c in count_incs if c[2] == g)
+            ctx.inst(hc == 1, "R12.1", "header-counted:" + key, main.loc(p), "the header line \"%s\" is counted once under the same guard" % lit,
+                     "the header line \"%s\" is counted %d time(s) under its guard (expected once)" % (lit, hc))
         else:
-            hc = [c for c in count_incs if guards_txt(main, c) == g]
-            ctx.inst(len(hc) == 0, "R12.1", "no-header-count:" + key, main.loc(p), "no header line is counted for the section without header")
+            hc = sum(c[1] for c in count_incs if c[2] == g)
+            ctx.inst(hc == 0, "R12.1", "no-header-count:" + key, main.loc(p), "no header line is counted for the section without header")
     # taproot commitment lines
     desc_assign = [n for n in main.nodes() if n["k"] == "opcall" and n["op"] == "=" and astq.estr(n["args"][0]) == "tc_desc"]
-    adds = [n for n in main.nodes() if n["k"] == "cassign" and n["op"] == "+=" and astq.estr(n["lhs"]) == "count"]
+    adds = [c[3] for c in contrib if c[0] == "size"]
+    unknown = [c for c in contrib if c[0] == "other"]
+    ctx.inst(not unknown, "R12.1", "count-contributions-understood", main.loc(unknown[0][3]) if unknown else main.loc(), "every contribution to count is a constant, an operation count or a container size",
+             "count is increased by `%s`, which is neither a constant, an operation count nor a container size" % (unknown[0][1] if unknown else ""))
     emit = [n for n in main.nodes() if n["k"] == "forrange" and astq.estr(n.get("range")) == "tc_desc"]
     okd = len(desc_assign) == 1 and len(adds) == 1 and "tc_desc.size()" in astq.estr(adds[0]["rhs"]) and guards_txt(main, adds[0]) == guards_txt(main, desc_assign[0]) and len(emit) == 1
     if okd:
@@ -96,7 +135,7 @@ def run(ctx, anchors=None):
         m = mallocs[0]
         mp = cfg.position(m)
         later = []
-        for c in count_incs + adds + [l[1] for l in loops]:
+        for c in [c_[3] for c_ in contrib]:
             p = cfg.position(c)
             if p and mp and (p[0] in cfg.reachable_from(mp[0])) and not cfg.dominates(c, m):
                 later.append(c)
@@ -283,7 +322,7 @@ def run(ctx, anchors=None):
     for (n, it) in pr:
         for c in fprint.nodes():
             if c["k"] == "cond":
-                txt = astq.estr(c["cond"]).replace(" ", "")
+                txt = common.xstr(fprint, c["cond"], keep=(it,)).replace(" ", "")
                 if txt in ("(%s==env->curr_op_seq)" % it, "(env->curr_op_seq==%s)" % it) and any(a.get("k") in ("for", "while", "forrange") and S.contains(a, n) for a in fprint.ancestors(c)):
                     marks.append(c)
     ctx.site()
